@@ -510,3 +510,82 @@ fn c04_fashare_3d_n2() {
     }
     std::mem::forget(r);
 }
+
+/// C04 - verified broadcast (Goldwasser-Lindell echo), n = 3, own index 0: Ok implies that every
+/// other party echoed, for the third party, exactly the hash this party computed from what it
+/// received itself (InconsistentBroadcast / EmptyVector otherwise).
+#[kani::proof]
+#[kani::unwind(6)]
+#[kani::stub(std::fmt::format, no_format)]
+fn c04_bcast_verify_tail_n3() {
+    let h: [u128; 3] = [0, kani::any(), kani::any()];
+    let o = |b: bool| -> Option<u128> { if b { Some(kani::any()) } else { None } };
+    // received_vecs[k][j]: what party k says it received from party j
+    let r1 = [o(kani::any()), o(kani::any()), o(kani::any())];
+    let r2 = [o(kani::any()), o(kani::any()), o(kani::any())];
+    let r = seg_bcast_verify_tail(0, 3, vec![vec![], vec![r1[0], r1[1], r1[2]], vec![r2[0], r2[1], r2[2]]], vec![h[0], h[1], h[2]]);
+    let ok = r.is_ok();
+    kani::cover!(ok, "bcast_ok_reachable");
+    kani::cover!(!ok, "bcast_err_reachable");
+    if ok {
+        assert!(r1[2] == Some(h[2]), "C04:broadcast:party-1-echo-of-party-2==own-view");
+        assert!(r2[1] == Some(h[1]), "C04:broadcast:party-2-echo-of-party-1==own-view");
+    }
+    std::mem::forget(r);
+}
+
+/// C04 - leaky AND, final check (n = 2, own index 0, two triples): Ok implies the XOR of all
+/// parties' H values is zero for every triple (LaANDXorNotZero otherwise) and every opening
+/// was accepted by the (arbitrary-verdict) commitment check.
+#[kani::proof]
+#[kani::unwind(6)]
+#[kani::stub(std::fmt::format, no_format)]
+fn c04_flaand_tail_n2() {
+    let own: [u128; 2] = [kani::any(), kani::any()];
+    let peer: [u128; 2] = [kani::any(), kani::any()];
+    let z = Commitment([0u8; 32]);
+    let zs = || Share(kani::any(), Auth(vec![(Mac(0), Key(0)), (Mac(0), Key(0))]));
+    let r = seg_flaand_tail(0, 2, 2, vec![own[0], own[1]], vec![vec![], vec![peer[0], peer[1]]], vec![vec![], vec![z, z]], vec![zs(), zs()]);
+    let ok = r.is_ok();
+    kani::cover!(ok, "flaand_ok_reachable");
+    kani::cover!(!ok, "flaand_err_reachable");
+    if ok {
+        assert!(own[0] ^ peer[0] == 0 && own[1] ^ peer[1] == 0, "C04:flaand:Ok-implies-xor-of-all-H==0");
+    }
+    std::mem::forget(r);
+}
+
+/// C04 - aBit check (n = 2, own index 0; two of the 3*rho random combinations, three
+/// authenticated bits): Ok implies that for every combination j the peer's opened (x_j, MAC)
+/// satisfies MAC == (XOR of own keys selected by the coefficient bits) ^ x_j * delta.
+#[kani::proof]
+#[kani::unwind(6)]
+#[kani::stub(std::fmt::format, no_format)]
+fn c04_fabitn_check_n2() {
+    let delta: u128 = kani::any();
+    let keys: [u128; 3] = [kani::any(), kani::any(), kani::any()];
+    let rb: [u128; 2] = [kani::any(), kani::any()];
+    let xj: [bool; 2] = [kani::any(), kani::any()];
+    let xm: [u128; 2] = [kani::any(), kani::any()];
+    let r = vec![vec![Block::from(rb[0])], vec![Block::from(rb[1])]];
+    let res = seg_fabitn_check(0, 2, Delta(delta), r, vec![vec![], vec![(xj[0], xm[0]), (xj[1], xm[1])]], vec![vec![], vec![keys[0], keys[1], keys[2]]]);
+    let ok = res.is_ok();
+    kani::cover!(ok, "fabitn_ok_reachable");
+    kani::cover!(!ok, "fabitn_err_reachable");
+    if ok {
+        let mut j = 0;
+        while j < 2 {
+            let mut k = 0u128;
+            let mut t = 0;
+            while t < 3 {
+                if (rb[j] >> t) & 1 == 1 {
+                    k ^= keys[t];
+                }
+                t += 1;
+            }
+            assert!(xm[j] == k ^ (if xj[j] { delta } else { 0 }), "C04:fabitn:opened-MAC==selected-key-xor^x*delta");
+            j += 1;
+        }
+    }
+    std::mem::forget(res);
+}
